@@ -20,7 +20,13 @@ def predicate_extractor(
     if not isinstance(predicate_spec, (list, tuple)):
         return result.PermFail(message="Malformed conditions, expected a list")
 
-    predicates = encode_cel(predicate_spec)
+    try:
+        predicates = encode_cel(predicate_spec)
+    except Exception as err:
+        return result.PermFail(
+            message=f"Structural error in conditions, while building expression '{err}'.",
+        )
+
     conditions = f"{predicates}.filter(predicate, !predicate.assert)"
 
     try:
